@@ -125,6 +125,8 @@ type PipelineJob struct {
 	sched      *taskctl.Scheduler
 	taskRunner runner.Runner
 	startTimer *time.Timer
+	// cancelRequested is set when a cancel request for the job was acknowledged (CancelJob)
+	cancelRequested bool
 }
 
 func (j *PipelineJob) isRunning() bool {
@@ -506,8 +508,9 @@ func (r *PipelineRunner) JobCompleted(id uuid.UUID, err error) {
 	job.End = &now
 	job.LastError = err
 
-	// Set canceled flag on the job if a task was canceled through the context
-	if errors.Is(err, context.Canceled) {
+	// Set canceled flag on the job if a task was canceled through the context, or if a cancel request was
+	// acknowledged while the job was running (the error of an earlier failed task might have won)
+	if errors.Is(err, context.Canceled) || job.cancelRequested {
 		job.Canceled = true
 	}
 
@@ -958,7 +961,11 @@ func (r *PipelineRunner) CancelJob(id uuid.UUID) error {
 	r.mx.Lock()
 	defer r.mx.Unlock()
 
-	return r.cancelJobInternal(id)
+	err := r.cancelJobInternal(id)
+	if job, ok := r.jobsByID[id]; ok && err == nil {
+		job.cancelRequested = true
+	}
+	return err
 }
 
 func (r *PipelineRunner) cancelJobInternal(id uuid.UUID) error {
